@@ -48,7 +48,14 @@ func refYAML(c refCase, declOrder int) string {
 	}
 	for _, p := range names {
 		fmt.Fprintf(&b, "  %s:\n", map[bool]string{true: `""`, false: p}[p == ""])
-		for _, s := range c.Cfg.Pipes[p] {
+		stages := append([]refStage{}, c.Cfg.Pipes[p]...)
+		if declOrder >= 2 {
+			// dependants declared before what they depend on
+			for i, j := 0, len(stages)-1; i < j; i, j = i+1, j-1 {
+				stages[i], stages[j] = stages[j], stages[i]
+			}
+		}
+		for _, s := range stages {
 			first := "    - "
 			if s.Name != "" {
 				fmt.Fprintf(&b, "    - name: %s\n", s.Name)
@@ -65,7 +72,14 @@ func refYAML(c refCase, declOrder int) string {
 				b.WriteString("    - {}\n") // a stage that says nothing at all
 			}
 			if len(s.Deps) > 0 {
-				fmt.Fprintf(&b, "      depends_on: [%s]\n", strings.Join(s.Deps, ", "))
+				ds := append([]string{}, s.Deps...)
+				sort.Strings(ds)
+				if declOrder%2 == 1 {
+					for i, j := 0, len(ds)-1; i < j; i, j = i+1, j-1 {
+						ds[i], ds[j] = ds[j], ds[i]
+					}
+				}
+				fmt.Fprintf(&b, "      depends_on: [%s]\n", strings.Join(ds, ", "))
 			}
 		}
 	}
@@ -93,9 +107,9 @@ func CheckC18(env *core.Env, rep *core.Report) *core.Result {
 		}
 		cases = append(cases, c)
 	}
-	e.note("Refs", r, fmt.Sprintf("%d configurations: the base one and one per broken reference (stage->task x5, stage->pipeline x1, depends_on unknown / other pipeline's stage x4 each, duplicate stage name x4, watcher->task, inclusion cycles of length 1, 2, 3, a pipeline declared under the empty name that a reference-less stage then names: itself, acyclically, in a 2-cycle); WellFormed evaluated; OnlyBaseWellFormed holds", len(cases)))
-	if len(cases) != 41 {
-		core.Broken("Refs emitted %d cases, expected 41", len(cases))
+	e.note("Refs", r, fmt.Sprintf("%d configurations: the base one and one per broken reference (stage->task x5, stage->pipeline x1, depends_on unknown / other pipeline's stage x4 each, an unknown name next to a valid one x4 (before / after it, the valid stage declared earlier / later), duplicate stage name x4, watcher->task, inclusion cycles of length 1, 2, 3, a pipeline declared under the empty name that a reference-less stage then names: itself, acyclically, in a 2-cycle); WellFormed evaluated; OnlyBaseWellFormed holds", len(cases)))
+	if len(cases) != 45 {
+		core.Broken("Refs emitted %d cases, expected 45", len(cases))
 	}
 	sort.Slice(cases, func(i, j int) bool { return core.JSON(cases[i].Mut) < core.JSON(cases[j].Mut) })
 	n := 0
@@ -116,10 +130,14 @@ func CheckC18(env *core.Env, rep *core.Report) *core.Result {
 		}
 	}
 	for i, c := range cases {
-		for order := 0; order < 2; order++ {
+		orders := []int{2 * (i % 2), 2*(i%2) + 1}
+		if k0 := fmt.Sprint(c.Mut[0]); k0 == "depmix" || k0 == "dep" {
+			orders = []int{0, 1, 2, 3} // the broken entry before / after a valid one, the valid one declared earlier / later
+		}
+		for _, order := range orders {
 			d := env.Sub("ref")
 			f := filepath.Join(d, "tasks.yaml")
-			y := refYAML(c, order+2*(i%2))
+			y := refYAML(c, order)
 			_ = ioutil.WriteFile(f, []byte(y), 0o644)
 			list := e.run(d, "", 10*time.Second, "-c", f, "list")
 			val := e.run(d, "", 10*time.Second, "-c", f, "validate", f)
